@@ -61,7 +61,7 @@ ASSUMPTIONS = [
     'RList: indices for set/del/swap are in range (negative ones included); index(start, stop) '
     'with non-negative bounds; copy() is checked for content and independence only',
 ]
-BUDGET = {'quick': {'cases': 4000, 'shards': 16, 'seconds': 150,
+BUDGET = {'quick': {'cases': 8000, 'shards': 16, 'seconds': 150,
                     'shrink_s': int(os.environ.get('C16_SHRINK_S', 30))},
           'thorough': {'cases': 60000, 'shards': 16, 'seconds': 1200, 'shrink_s': 60}}
 FLOORS = {}
@@ -270,7 +270,7 @@ def m_graft(ctx, model, gid, transparent=True):
             add(dependee, init)
         if not sub and transparent:
             for dep in sorted(deps):
-                if dependee != gid and dep != gid:     # a self-loop carries no ordering
+                if dependee != gid and dep != gid and dependee != dep:   # loops carry no ordering
                     add(dependee, dep)
     return res
 
@@ -896,15 +896,10 @@ def op_flatten(ctx, oper, out, flags, gi):
         flags.add('flatten-skipped-cyclic')
         return {gi}
     if nest and ctx.aliased_transparent(model):
-        # see Ctx.aliased_transparent: perform the operation, take the result as it is
+        # see Ctx.aliased_transparent: outside the domain (the combined edges may
+        # even form a cycle through the aliased node); the operation is not performed
         flags.add('flatten-skipped-aliased-transparent')
         out.excluded += 1
-        okay, res = _try(out, 'op', 'flatten', graph.flatten, recurse=recurse)
-        got = read_model(ctx, graph, out, 'flatten') if okay else None
-        if got is not None:
-            entry['m'] = got
-        note_mutation(entry, flags)
-        entry['added_since_rm'] = True
         return {gi}
     if nest:
         flags.add('nt-nested-graft-flatten')
